@@ -33,7 +33,7 @@ seed=7 servers=2 timeout=1000 tries=2 flags=noedns|query 1 www.example.com IN A;
 servers=2 serverstatecb=1 flags=none|send 1 fail.example IN A rd;rsp x0 rcode=SERVFAIL;proc;rsp x1 an=A:9.9.9.9:10;proc;servers
 servers=1 flags=none chunk=1 wpat=5,0,1000|send 1 big.example IN TXT rd;rsp x0 tc=1;run;rsp xl an=TXT:hello:30+TXT:world:30;run
 servers=1 flags=nodfltsvr,edns domains=a.test,b.test ndots=2|search 1 host IN A rd;rsp xl rcode=NXDOMAIN;proc;rsp xl rcode=NXDOMAIN;proc;rsp xl an=A:10.1.1.1:5;proc
-servers=1 domains=corp.test|gai 1 www.corp.test 0 0x80 80;rspall an=A:192.0.2.1:100;proc;rsp x1 an=AAAA:[2001:db8::1]:200+AAAA:2001:db8::2:50;proc
+servers=1 domains=corp.test|gai 1 www.corp.test 0 0x80 80;rsp x0 an=A:192.0.2.1:100;proc;rsp x1 an=CNAME:w6.corp.test:20+AAAA:[2001:db8::1]:200@w6.corp.test+AAAA:2001:db8::2:50@w6.corp.test;proc
 servers=1|gai 1 sorted.test 0 0;rsp x0 an=A:192.0.2.1:100+A:10.0.0.9:100;rsp x1 an=AAAA:[2001:db8::1]:200;proc
 servers=1|send 1 a.example IN A rd;send 2 b.example IN A rd;qlen;cancel;qlen;rsp x0 an=A:1.1.1.1;proc
 servers=1|send 1 a.example IN A rd;send 2 b.example IN MX rd;destroy;send 3 c.example IN A;adv 10;proc
